@@ -52,6 +52,8 @@ PROPS = {
     "C18": {"engines": [
         {"name": "toconfig", "pkg": "internal/k8s/controllers", "run": "^TestVerifC18ToConfig$",
          "checks": {Q: 6000, T: 480000}, "shards": {Q: 2, T: 16}},
+        {"name": "reconcilers", "pkg": "internal/k8s/controllers", "run": "^TestVerifC18Reconcilers$",
+         "checks": {Q: 6000, T: 480000}, "shards": {Q: 2, T: 16}},
     ]},
     "C16": {"engines": [
         {"name": "update", "pkg": "internal/bgp/native", "run": "^TestVerifC16Update$",
